@@ -797,6 +797,9 @@ func (p *sshFxpOpenPacket) UnmarshalBinary(b []byte) error {
 		return err
 	} else if p.Flags, b, err = unmarshalUint32Safe(b); err != nil {
 		return err
+	} else if _, _, err = unmarshalFileStat(p.Flags, b); err != nil {
+		// the attributes announced by the flags must be present
+		return err
 	}
 	p.Attrs = b
 	return nil
@@ -1013,7 +1016,10 @@ func (p *sshFxpMkdirPacket) UnmarshalBinary(b []byte) error {
 		return err
 	} else if p.Path, b, err = unmarshalStringSafe(b); err != nil {
 		return err
-	} else if p.Flags, _, err = unmarshalUint32Safe(b); err != nil {
+	} else if p.Flags, b, err = unmarshalUint32Safe(b); err != nil {
+		return err
+	} else if _, _, err = unmarshalFileStat(p.Flags, b); err != nil {
+		// the attributes announced by the flags must be present
 		return err
 	}
 	return nil
@@ -1102,6 +1108,9 @@ func (p *sshFxpSetstatPacket) UnmarshalBinary(b []byte) error {
 		return err
 	} else if p.Flags, b, err = unmarshalUint32Safe(b); err != nil {
 		return err
+	} else if _, _, err = unmarshalFileStat(p.Flags, b); err != nil {
+		// the attributes announced by the flags must be present
+		return err
 	}
 	p.Attrs = b
 	return nil
@@ -1126,6 +1135,9 @@ func (p *sshFxpFsetstatPacket) UnmarshalBinary(b []byte) error {
 	} else if p.Handle, b, err = unmarshalStringSafe(b); err != nil {
 		return err
 	} else if p.Flags, b, err = unmarshalUint32Safe(b); err != nil {
+		return err
+	} else if _, _, err = unmarshalFileStat(p.Flags, b); err != nil {
+		// the attributes announced by the flags must be present
 		return err
 	}
 	p.Attrs = b
